@@ -4,7 +4,7 @@ use super::c16::py_limit_pub;
 use super::common::*;
 use crate::engine::{Ctx, Obs, PropertyDef, Section};
 use crate::gen::diag::{diag_spec, DiagParams, DiagSpec, Palette};
-use crate::oracle::diag::{build, read_scalar, Diag, MScalar, VK};
+use crate::oracle::diag::{build, read_scalar_shifted, Diag, MScalar, VK};
 use crate::oracle::ring::Ring;
 use proptest::prelude::*;
 use quizx::graph::{EType, GraphLike, VType, V};
@@ -22,6 +22,9 @@ pub struct Case {
     /// permute the input / output lists
     pub in_keys: Vec<u16>,
     pub out_keys: Vec<u16>,
+    /// extra power of sqrt2 multiplied into the scalar (magnitudes up to the ends of f64's range)
+    #[serde(default)]
+    pub scalar_pow: i32,
 }
 
 struct SG {
@@ -165,7 +168,9 @@ fn expected_phase(p: (i64, i64)) -> (i64, i64) {
     }
 }
 
-fn scalars_match(orig: &MScalar, got: &MScalar, exact_class: bool) -> Result<(), String> {
+/// `shift`: both values were divided by 2^shift; one unit in the last place of a subnormal f64
+/// (the JSON float factor cannot be finer) is 2^-1074, i.e. 2^(-1074-shift) here
+fn scalars_match(orig: &MScalar, got: &MScalar, exact_class: bool, shift: i32) -> Result<(), String> {
     if exact_class {
         match (orig, got) {
             (MScalar::Exact(a), MScalar::Exact(b)) if a == b => Ok(()),
@@ -176,7 +181,8 @@ fn scalars_match(orig: &MScalar, got: &MScalar, exact_class: bool) -> Result<(),
     } else {
         let (a, b) = (orig.to_c64(), got.to_c64());
         let d = (a - b).norm();
-        if d <= 1e-9 * a.norm().max(b.norm()) {
+        let quantum = crate::oracle::ring::ldexp(8.0, -1074 - shift);
+        if d <= 1e-9 * a.norm().max(b.norm()) + quantum {
             Ok(())
         } else {
             Err(format!(
@@ -225,6 +231,9 @@ fn prepare<G: GraphLike>(c: &Case) -> (G, Diag, bool) {
             g.set_row(v, r);
             g.set_qubit(v, q);
         }
+    }
+    if c.scalar_pow != 0 {
+        g.scalar_mut().mul_sqrt2_pow(c.scalar_pow);
     }
     let mut has_hbox = false;
     for (raw, p) in &c.hboxes {
@@ -289,14 +298,17 @@ fn check_roundtrip<G: GraphLike, H: GraphLike + 'static>(
         return Err(format!("{name}: number of inputs/outputs changed"));
     }
     // scalar
-    let so = read_scalar(g.scalar());
-    let sd = read_scalar(h.scalar());
+    let shift = c.scalar_pow / 2;
+    let so = read_scalar_shifted(g.scalar(), shift);
+    let sd = read_scalar_shifted(h.scalar(), shift);
+    obs.class_if(c.scalar_pow <= -2044, "scalar:subnormal-modulus");
+    obs.class_if(c.scalar_pow.abs() >= 1000, "scalar:extreme-modulus");
     let mono = is_mono(&so);
     obs.class_if(mono, "scalar:sqrt2-power-times-phase");
     obs.class_if(!mono, "scalar:general");
-    scalars_match(&so, &sd, mono).map_err(|e| format!("{name}: {e}"))?;
+    scalars_match(&so, &sd, mono, shift).map_err(|e| format!("{name}: {e}"))?;
     // semantics (no H-boxes, phases within the exact class)
-    if !has_hbox && d.verts.iter().all(|v| v.phase.1 <= 256) {
+    if !has_hbox && c.scalar_pow.abs() <= 600 && d.verts.iter().all(|v| v.phase.1 <= 256) {
         if let (GraphTruth::Ok(t0), GraphTruth::Ok(t1)) = (graph_truth(&g), graph_truth(&h)) {
             same_truth(&t0, &t1, REL_TOL).map_err(|e| format!("{name}: decoded diagram denotes a different map: {e}"))?;
         }
@@ -355,20 +367,29 @@ pub fn def(ctx: &Ctx) -> PropertyDef {
                 ),
                 prop::collection::vec(any::<u16>(), 0..=4),
                 prop::collection::vec(any::<u16>(), 0..=4),
+                // moduli from 2^-1034 (inside the subnormal band) to 2^1000
+                prop_oneof![
+                    12 => Just(0i32),
+                    2 => -300i32..=300,
+                    1 => -2068i32..=-2040,
+                    1 => -2040i32..=-1800,
+                    1 => 1800i32..=2000,
+                ],
             )
-                .prop_map(|(spec, coords, hboxes, big_phases, in_keys, out_keys)| Case {
+                .prop_map(|(spec, coords, hboxes, big_phases, in_keys, out_keys, scalar_pow)| Case {
                     spec,
                     coords,
                     hboxes,
                     big_phases,
                     in_keys,
                     out_keys,
+                    scalar_pow,
                 })
         }
     };
     PropertyDef {
         id: "C13",
-        rule: "random well-formed diagrams (Z/X spiders, occasional H-box vertices, both edge types incl. Hadamard edges at boundaries and boundary-boundary wires, rational phases with denominators <=256 and a few larger ones, grid and arbitrary finite coordinates, permuted input/output lists, scalars: sqrt2-power times e^(i k pi/4), general Z[omega] elements, floats), in both backends with id holes: encode_graph must succeed, decode_graph (into both backends) and serde of the hash backend must yield a graph for which an input/output-anchored isomorphism exists that preserves types, phases (exactly for d<=256, else the closest fraction with d<=256), edge types and coordinates (1e-9); scalar exactly equal in the exact class, 1e-9 relative otherwise; harness evaluation equal. Non-trivial = has a Hadamard edge, a non-zero phase, >=2 inputs or outputs and a permuted boundary list. Distinct by hash of the case.",
+        rule: "random well-formed diagrams (Z/X spiders, occasional H-box vertices, both edge types incl. Hadamard edges at boundaries and boundary-boundary wires, rational phases with denominators <=256 and a few larger ones, grid and arbitrary finite coordinates, permuted input/output lists, scalars: sqrt2-power times e^(i k pi/4), general Z[omega] elements, floats, each optionally scaled by sqrt2^p so that moduli range from 2^-1034 — inside f64's subnormal band — to 2^1000), in both backends with id holes: encode_graph must succeed, decode_graph (into both backends) and serde of the hash backend must yield a graph for which an input/output-anchored isomorphism exists that preserves types, phases (exactly for d<=256, else the closest fraction with d<=256), edge types and coordinates (1e-9); scalar exactly equal in the exact class, 1e-9 relative otherwise; harness evaluation equal. Non-trivial = has a Hadamard edge, a non-zero phase, >=2 inputs or outputs and a permuted boundary list. Distinct by hash of the case.",
         assumptions: vec![
             "backtracking isomorphism search with a budget (exceeding it is counted as skipped)",
             "coordinates compared to 1e-9 relative (serde_json is built without exact float round-tripping)",
